@@ -197,6 +197,13 @@ impl SemanticState {
     }
 
     pub fn add_item(&mut self, item_definition: ItemDefinition) -> anyhow::Result<()> {
+        if self.type_registry.get(&item_definition.path).is_some() {
+            anyhow::bail!(
+                "an item with the path `{}` is already defined",
+                item_definition.path
+            );
+        }
+
         let parent_path = &item_definition.path.parent().with_context(|| {
             format!(
                 "failed to get parent path for type `{}`",
